@@ -65,11 +65,14 @@ impl log::Log for FlexiLogger {
         let target = metadata.target();
         let level = metadata.level();
 
-        if !self.other_writers.is_empty() && target.starts_with('{') {
-            // at least one other writer is configured _and_ addressed
+        if target.starts_with('{') {
+            // other writers and/or the default channel are addressed
+            let mut default_is_addressed = false;
             let targets = addressed_writers(target);
             for t in targets {
-                if t != "_Default" {
+                if t == "_Default" {
+                    default_is_addressed = true;
+                } else {
                     match self.other_writers.get(t) {
                         None => {
                             eprint_msg(ErrorCode::WriterSpec, &format!("bad writer spec: {t}"));
@@ -81,6 +84,19 @@ impl log::Log for FlexiLogger {
                         }
                     }
                 }
+            }
+            if default_is_addressed {
+                // log() decides with the module path of the record, which is not part of the
+                // metadata: we must not answer false if some module filter accepts the level
+                return level
+                    <= self
+                        .log_specification
+                        .read()
+                        .map_err(|e| {
+                            eprint_err(ErrorCode::Poison, "rwlock on log spec is poisoned", &e);
+                        })
+                        .unwrap()
+                        .max_level();
             }
         }
 
